@@ -345,6 +345,244 @@ def after_bad_parse(rng, c):
     return c, bad, via, first, second
 
 
+# --------------------------------------------------------------------------
+# histories: several questions on one report
+
+GENERIC_PATTERNS = ["_v_ = ___", "for _i_ in ___:\n    pass", "print(__expr__)", "_f_(___)", "_a_ = _a_ + ___",
+                    "def _f_(___):\n    pass", "if ___:\n    pass", "__e__ + ___", "_v_", "___ = ___\nprint(___)",
+                    "_o_.append(__x__)", "return ___", "while ___:\n    pass", "import _m_"]
+AST_KINDS = ["Name", "For", "Assign", "Call", "FunctionDef", "Module", "Constant", "NoSuchNode"]
+HISTORY_PAIRS = [
+    ("x = 1\nprint(x)\n",
+     "count = 0\ntotal = 0\nfor item in items:\n    total = total + item\n    count = count + 1\nprint(total / count)\n"),
+    ("a = []\na.append(1)\n", "a = []\nb = 2\na.append(b)\nprint(a)\n"),
+    ("def f(x):\n    return x + 1\n", "\ndef f(x):\n    return x + 1\n"),
+    ("for i in r:\n    t = t + i\n", "for k in r:\n    t = t + k\nprint(t)\n"),
+    ("print(1)", "print(1)\n"),
+]
+
+
+def twins(rng, code):
+    """parsable texts that differ from `code` as little as possible: same tree on other lines / columns, one more or
+    one fewer statement, one identifier or constant changed, other line terminators, a prefix of it"""
+    lines = code.split("\n")
+    cands = [code + "# tail\n", "\n" + code, code.rstrip("\n"), code + "\n\n", code.replace("\n", "\r\n"),
+             code + ("" if code.endswith("\n") else "\n") + "zz = 0\n", "zz = 0\n" + code, "\x0c" + code,
+             re.sub(r"\b1\b", "2", code, count=1), re.sub(r"\b(a|x|total|item)\b", "q", code, count=1),
+             re.sub(r"\b(a|x|total|item)\b", "q", code), "\n".join(lines[:max(1, len(lines) // 2)]) + "\n",
+             code.replace(" = ", "  =  ", 1), code + " ", "if 1:\n" + _indent_text(code)]
+    out = []
+    for c in cands:
+        if c == code or c in out:
+            continue
+        try:
+            ast.parse(c)
+        except (SyntaxError, ValueError):
+            continue
+        out.append(c)
+    rng.shuffle(out)
+    return out
+
+
+def _indent_text(code):
+    return "".join("    " + ln + "\n" if ln.strip() else ln + "\n" for ln in code.rstrip("\n").split("\n"))
+
+
+def own_patterns(rng, code, n=3):
+    """[(pattern, Derived)] derived from `code` by C11's steps (the last one is the fragment itself)."""
+    try:
+        tree = ast.parse(code)
+    except (SyntaxError, ValueError):
+        return []
+    out = []
+    for i in range(n):
+        try:
+            d = cc.derive(rng, code, tree, max_steps=0 if i == n - 1 else 4)
+        except RecursionError:
+            d = None
+        if d is not None and d.pattern.strip() and not re.fullmatch(r"___|__e\d*__", d.pattern.strip()):
+            out.append((d.pattern, d))
+    return out
+
+
+def small_program(code, limit=120):
+    try:
+        return sum(1 for _ in ast.walk(ast.parse(code))) <= limit
+    except (SyntaxError, ValueError, RecursionError):
+        return False
+
+
+def gen_histories(rng, tier, progs):
+    """Random histories.  A pool of 2-5 texts (programs, near-twins of them, sometimes an unparsable text or the
+    empty program), one or two reports (no submission / a Submission / Submission + Source.verify(); pedal's
+    MAIN_REPORT with `report=` left out), 3-9 steps: questions (find_matches / find_match / parse_program(...).
+    find_matches / a root kept from an earlier parse_program) about a pool text given explicitly (keyword or
+    positional) or about the submission (student_code left out or None), asked AGAIN later (cache hits), with
+    parse_program / find_asts / expire_cait_cache / reset / set_source / restore_code in between.
+    Returns [(spec, {step index: Derived})]."""
+    n = {"quick": 110, "thorough": 2200}[tier]
+    base = [p for p in progs if small_program(p)]
+    base += [c for _, c in cc.CORPUS_PAIRS if c.strip()] + [c for c, _, _ in cc.CORPUS_DERIVED]
+    out = []
+    for _ in range(n):
+        a = rng.choice(base)
+        pool = [a]
+        for _ in range(rng.randint(1, 3)):
+            k = rng.random()
+            if k < 0.45:
+                tw = twins(rng, rng.choice(pool))
+                if tw:
+                    pool.append(tw[0])
+                    continue
+            if k < 0.9:
+                pool.append(rng.choice(base))
+            elif k < 0.97:
+                pool.append(rng.choice(UNPARSABLE))
+            else:
+                pool.append(rng.choice(["", "\n", "# nothing\n"]))
+        pool = list(dict.fromkeys(pool))
+        own = {p: own_patterns(rng, p) for p in pool}
+        all_own = [x for p in pool for x in own[p]]
+        if not all_own:
+            continue
+        reports = []
+        for _ in range(1 if rng.random() < 0.7 else 2):
+            setup = rng.choice(["none", "submission", "source"])
+            reports.append({"setup": setup, "main": rng.choice(pool) if setup != "none" else None,
+                            "global": False})
+        if rng.random() < 0.25:
+            reports[rng.randrange(len(reports))]["global"] = True
+        steps, deriveds, asked = [], {}, []
+        has_sub = [r["setup"] != "none" for r in reports]
+        depth = [0] * len(reports)
+        for i in range(rng.randint(3, 9)):
+            r = rng.randrange(len(reports))
+            k = rng.random()
+            st = {"r": r}
+            if k < 0.66:
+                st["op"] = rng.choice(["find_matches", "find_matches", "find_matches", "find_match", "node", "held"])
+                if has_sub[r] and rng.random() < 0.4:
+                    st["target"] = "sub"
+                    st["spell"] = rng.choice(["omit", "none"])
+                    target_text = None
+                else:
+                    st["target"] = "code"
+                    # come back to something this history has already asked about: cache hits
+                    st["code"] = rng.choice(asked) if asked and rng.random() < 0.5 else rng.choice(pool)
+                    st["spell"] = rng.choice(["kw", "pos"])
+                    target_text = st["code"]
+                    asked.append(st["code"])
+                q = rng.random()
+                if target_text is not None and own.get(target_text) and q < 0.5:
+                    st["pattern"], deriveds[i] = rng.choice(own[target_text])
+                elif q < 0.8:
+                    st["pattern"] = rng.choice(all_own)[0]          # usually taken from ANOTHER text of the pool
+                elif q < 0.95:
+                    st["pattern"] = rng.choice(GENERIC_PATTERNS)
+                else:
+                    st["pattern"] = cc.mutate_pattern(rng, rng.choice(all_own)[0]) or rng.choice(GENERIC_PATTERNS)
+            elif k < 0.80:
+                st["op"] = rng.choice(["parse_program", "find_asts"])
+                st["kind"] = rng.choice(AST_KINDS)
+                if has_sub[r] and rng.random() < 0.3:
+                    st["target"] = "sub"
+                else:
+                    st["target"], st["code"] = "code", rng.choice(pool)
+                    asked.append(st["code"])
+            elif k < 0.88:
+                st["op"] = "expire" if rng.random() < 0.8 else "reset"
+            elif k < 0.96 or not depth[r]:
+                st["op"], st["code"] = "set_source", rng.choice(pool)
+                if has_sub[r]:
+                    depth[r] += 1
+                has_sub[r] = True
+            else:
+                st["op"] = "restore"
+                depth[r] -= 1
+            steps.append(st)
+        out.append(({"reports": reports, "steps": steps}, deriveds))
+    return out
+
+
+def history_scope(rng, tier):
+    """Small-scope EXHAUSTIVE histories over two programs A, B: every sequence of at most k steps over
+    {ask about A, ask about B, ask about the submission, an unparsable text, expire_cait_cache, find_asts(B),
+    parse_program(B), set_source(B), restore_code}, followed by four closing questions (A explicitly and the
+    submission, each with a pattern taken from A and one taken from B), on a report without submission, with the
+    submission A, and with the submission A after Source.verify()."""
+    k, n_pairs = {"quick": (2, 1), "thorough": (3, 3)}[tier]
+    pairs = list(HISTORY_PAIRS)
+    rng.shuffle(pairs)
+    out = []
+    alphabet = ["qA", "qB", "qS", "bad", "expire", "astsB", "parseB", "setB", "restore"]
+    for a, b in pairs[:n_pairs]:
+        if rng.random() < 0.5:
+            a, b = b, a
+        own = {}
+        for x in (a, b):
+            cands = [pd for pd in own_patterns(rng, x, 6) if pd[1].steps] or own_patterns(rng, x, 1)
+            own[x] = cands[0]
+        bad = rng.choice(UNPARSABLE)
+        count = 0
+        for length in range(k + 1):
+            for seq in itertools.product(alphabet, repeat=length):
+                for setup in ("none", "submission", "source"):
+                    if setup == "none" and ("restore" in seq or ("qS" in seq and "setB" not in seq)):
+                        continue
+                    count += 1
+                    steps, deriveds = [], {}
+                    current = a if setup != "none" else None
+
+                    def ask(text, target, which, op="find_matches"):
+                        st = {"op": op, "target": target, "spell": ("kw", "pos", "omit", "none")[(count + len(steps)) % 4]}
+                        if target == "code":
+                            st["code"] = text
+                            if st["spell"] in ("omit", "none"):
+                                st["spell"] = "kw"
+                        st["pattern"], d = own[which]
+                        if which == text:
+                            deriveds[len(steps)] = d
+                        steps.append(st)
+                    stack = []
+                    for j, sym in enumerate(seq):
+                        op = ("find_matches", "find_match", "node")[(count + j) % 3]
+                        if sym == "qA":
+                            ask(a, "code", (a, b)[(count + j) % 2], op)
+                        elif sym == "qB":
+                            ask(b, "code", (b, a)[(count + j) % 2], op)
+                        elif sym == "qS":
+                            if current is not None:
+                                ask(current, "sub", (a, b)[(count + j) % 2], op)
+                        elif sym == "bad":
+                            steps.append({"op": ("find_matches", "find_match", "parse_program", "find_asts")[(count + j) % 4],
+                                          "target": "code", "code": bad, "pattern": own[a][0], "kind": "Name"})
+                        elif sym == "expire":
+                            steps.append({"op": "expire"})
+                        elif sym == "astsB":
+                            steps.append({"op": "find_asts", "target": "code", "code": b, "kind": "Name"})
+                        elif sym == "parseB":
+                            steps.append({"op": "parse_program", "target": "code", "code": b})
+                        elif sym == "setB":
+                            steps.append({"op": "set_source", "code": b})
+                            if current is not None:
+                                stack.append(current)
+                            current = b
+                        elif sym == "restore":
+                            if not stack:
+                                break
+                            steps.append({"op": "restore"})
+                            current = stack.pop()
+                    else:
+                        ask(a, "code", a)
+                        ask(a, "code", b)
+                        if current is not None:
+                            ask(current, "sub", a)
+                            ask(current, "sub", b)
+                        out.append(({"reports": [{"setup": setup, "main": a if setup != "none" else None,
+                                                  "global": count % 7 == 0}], "steps": steps}, deriveds))
+    return out
+
+
 def correspond(prop):
     def run(rng, tier, driver):
         res = CorrResult()
@@ -425,6 +663,34 @@ def correspond(prop):
                 do({"pattern": g, "code": c["code"], "origin": c["origin"].split(":")[0] + ":generalised",
                     "setup": c["setup"], "api": "find_matches", "spelling": c.get("spelling", "plain"),
                     "mono_parent": c["pattern"], "mono_cross": cc.cross_field_pairs(r)})
+        # several questions on ONE report: every judged step is a case of its own (asked program = the text the
+        # step asked about, as recorded by the harness), compared with the model and given to both searches
+        hnotes = {}
+        pool = list(dict.fromkeys(c["code"] for c in cases if c["origin"].split(":")[0] in ("gen", "decoy")))
+        for spec, deriveds in gen_histories(rng, tier, pool) + history_scope(rng, tier):
+            try:
+                steps = cc.run_history(spec, hnotes)
+            except (SyntaxError, RecursionError):
+                res.count("skipped:history-unparsable")
+                continue
+            res.count("histories")
+            for i, (st, r) in enumerate(zip(spec["steps"], steps)):
+                if r is None:
+                    continue
+                rep = spec["reports"][st.get("r", 0) % len(spec["reports"])]
+                c = {"pattern": st["pattern"], "code": r.code, "origin": "history:" + st["op"],
+                     "setup": "history-" + rep["setup"] + ("-MAIN_REPORT" if rep.get("global") else ""),
+                     "api": r.api, "spelling": "plain", "history": spec, "step": i}
+                if i in deriveds:
+                    c["derived"] = deriveds[i]
+                res.count("history-step:" + ("revisit" if any(
+                    s2.get("code") == st.get("code") and s2.get("target") == st.get("target") and
+                    s2.get("r", 0) == st.get("r", 0) for s2 in spec["steps"][:i] if "target" in s2) else "first-visit"))
+                if r.ref.ast is None:
+                    res.count("history-step:unparsable-text-asked")
+                runs.append((c, r))
+        for k, v in hnotes.items():
+            res.count(k, v)
         to_model = [(c, r) for c, r in runs if r.compare_model]
         answers = dict(zip((id(r) for _, r in to_model), driver.ask([r.request() for _, r in to_model])))
         # is the derived case inside the domain of the C11 theorem?  (genCase, decided by the driver)
@@ -459,7 +725,8 @@ def correspond(prop):
             res.count("setup:" + c["setup"])
             res.count("api:" + r.api + (":use_previous" if r.use_previous else ""))
             res.count("spelling:" + c.get("spelling", "plain"))
-            case = {k: c[k] for k in ("pattern", "code", "setup", "api", "use_previous", "parent_pattern") if k in c}
+            case = {k: c[k] for k in ("pattern", "code", "setup", "api", "use_previous", "parent_pattern",
+                                      "history", "step") if k in c}
             if r.exc is not None:
                 res.count("real-raises:" + r.exc)
                 res.disagreements.append({"case": case, "real": "raises " + r.exc, "model": "-", "fields": ["exception"]})
@@ -478,6 +745,8 @@ def correspond(prop):
                 res.count("not-modelled:use_previous")
                 continue
             model = cc.parse_model_matches(answers[id(r)])
+            if r.api == "find_match" and not isinstance(model, str):
+                model = model[:1]                 # a history step that asked find_match: the first match only
             diffs = cc.compare(r.matches, model)
             if diffs:
                 res.disagreements.append({"case": case,
@@ -574,6 +843,52 @@ def shrink(pattern, code, still_fails, budget=150):
     return pattern, code
 
 
+def shrink_history(spec, idx, still, budget=400):
+    """greedy: cut what follows the failing step, then drop earlier steps one at a time, then the unused reports'
+    submissions; `still(spec, idx)` says whether step idx still fails."""
+    spec = json.loads(json.dumps(spec))
+    spec["steps"] = spec["steps"][:idx + 1]
+    changed = True
+    while changed and budget > 0:
+        changed = False
+        for j in range(len(spec["steps"]) - 1):
+            cand = dict(spec, steps=spec["steps"][:j] + spec["steps"][j + 1:])
+            budget -= 1
+            try:
+                ok = still(cand, idx - 1)
+            except Exception:
+                ok = False
+            if ok:
+                spec, idx, changed = cand, idx - 1, True
+                break
+    if len(spec["reports"]) > 1:
+        used = sorted({st.get("r", 0) % len(spec["reports"]) for st in spec["steps"]})
+        if len(used) == 1:
+            cand = {"reports": [spec["reports"][used[0]]], "steps": [dict(st, r=0) for st in spec["steps"]]}
+            try:
+                if still(cand, idx):
+                    spec = cand
+            except Exception:
+                pass
+    # the plainest report on which it still fails: a custom Report, no Source.verify(), no submission at all
+    for i in range(len(spec["reports"])):
+        rep = spec["reports"][i]
+        mine = [st for st in spec["steps"] if st.get("r", 0) % len(spec["reports"]) == i]
+        tries = [dict(rep, **{"global": False})] if rep.get("global") else []
+        if rep["setup"] == "source":
+            tries.append(dict(rep, **{"global": False, "setup": "submission"}))
+        if rep["setup"] != "none" and not any(st.get("target") == "sub" or st["op"] in ("restore", "set_source") for st in mine):
+            tries.append({"global": False, "setup": "none", "main": None})
+        for t in tries:
+            cand = dict(spec, reports=spec["reports"][:i] + [t] + spec["reports"][i + 1:])
+            try:
+                if still(cand, idx):
+                    spec = cand
+            except Exception:
+                pass
+    return spec, idx
+
+
 # --------------------------------------------------------------------------
 # C10 search: the embedding oracle on every real match
 
@@ -622,6 +937,27 @@ def search_c10(rng, tier, broken, corr):
         info["evaluations"] += len(r.matches)
         if toks[0] != "ok" or len(toks) != 1 + len(r.matches) or "0" in toks[1:]:
             bad.setdefault((c["pattern"], c["code"], r.api, r.use_previous), (c, r, a))
+    hist_bad = sorted(((c, r, a) for c, r, a in bad.values() if c.get("history") is not None),
+                      key=lambda x: len(json.dumps(x[0]["history"])))
+    for c, r, a in hist_bad[:1]:
+        def still(spec, idx):
+            rr = cc.run_history(spec)[idx]
+            if rr is None or rr.exc is not None or not rr.matches:
+                return False
+            return bool(rr.foreign) or any(not v for v in embed_verdicts(driver, rr))
+        spec, idx = shrink_history(c["history"], c["step"], still)
+        rr = cc.run_history(spec)[idx]
+        st = spec["steps"][idx]
+        sig = {"oracle": "embedding", "after": "history-on-one-report",
+               "why": "nodes-of-another-tree" if rr.foreign else "not-an-embedding"}
+        failures.append(Failure(sig, "step %d of a history on one report, %s(%r) about %s: %s" % (
+            idx + 1, st["op"], st["pattern"],
+            "the submission %r" % rr.code if st.get("target") == "sub" else "student_code=%r" % rr.code,
+            rr.foreign or "returns a match that is not an embedding"),
+            {"history": spec, "step": idx, "pattern": st["pattern"], "code": rr.code,
+             "match": cc.show_match(rr.matches[0]) if rr.matches else None,
+             "match_linenos": [m.match_lineno for m in rr.raw or []]}))
+    bad = {k: v for k, v in bad.items() if v[0].get("history") is None}
     for _, (c, r, a) in list(bad.items())[:3]:
         case = {k: c[k] for k in CASE_KEYS if k in c}
         if r.api not in ("sub", "prev"):
@@ -673,9 +1009,52 @@ def search_c11(rng, tier, broken, corr):
     bad = []
     sub_bad = []
     stale_bad = []
+    hist_bad = []
     for c, r in runs:
         d = c.get("derived")
-        if d is None:
+        if d is None or c.get("history") is None:
+            continue
+        # the derived pattern asked as one step of a history on one report
+        info["evaluations"] += 1
+        info["history_steps"] = info.get("history_steps", 0) + 1
+        if r.api == "find_match":
+            why = "raises " + r.exc if r.exc is not None else None if r.raw else "no match"
+        else:
+            why = cc.c11_verdict(d, r)
+        if why is not None:
+            hist_bad.append((c, r, d, why))
+    hist_bad.sort(key=lambda x: len(json.dumps(x[0]["history"])))
+    for c, r, d, why in hist_bad[:2]:
+        try:
+            fresh = cc.RealRun(d.pattern, cc.Program(d.code))
+            fresh_why = cc.c11_verdict(d, fresh)
+        except (SyntaxError, RecursionError):
+            continue
+        if fresh_why is not None:
+            bad.append((c, d, fresh_why))           # not a matter of the history: the plain oracle's finding
+            continue
+
+        def still(spec, idx, d=d):
+            rr = cc.run_history(spec)[idx]
+            if rr is None:
+                return False
+            if rr.api == "find_match":
+                return rr.exc is not None or not rr.raw
+            return cc.c11_verdict(d, rr) is not None
+        spec, idx = shrink_history(c["history"], c["step"], still)
+        st = spec["steps"][idx]
+        sig = {"oracle": "derived-pattern-after-history",
+               "why": why.split(" ")[0] + (" " + why.split(" ")[1] if why.startswith("raises") else "")}
+        failures.append(Failure(
+            sig, "pattern %r derived from the program matches it on a fresh report; asked as step %d of a history on "
+                 "one report (%s about %s) it gives: %s" % (
+                     d.pattern, idx + 1, st["op"], "the submission" if st.get("target") == "sub" else "student_code",
+                     why + (" (%s)" % r.foreign if getattr(r, "foreign", None) else "")),
+            {"history": spec, "step": idx, "pattern": d.pattern, "code": d.code, "why": why}))
+        break
+    for c, r in runs:
+        d = c.get("derived")
+        if d is None or c.get("history") is not None:
             continue
         info["evaluations"] += 1
         if d.steps:
@@ -788,6 +1167,33 @@ def replay(payload):
     rp = payload.get("replay") or {}
     if not rp and payload.get("disagreements"):
         rp = payload["disagreements"][0]["case"]
+    if rp and rp.get("history"):
+        spec = rp["history"]
+        for i, rep in enumerate(spec["reports"]):
+            print("report %d: %s%s%s" % (i, rep["setup"], " (pedal's MAIN_REPORT, report= left out)" if rep.get("global") else "",
+                                       "" if rep.get("main") is None else ", submission main code %r" % rep["main"]))
+        d = Driver("driver_c10")
+        for i, (st, r) in enumerate(zip(spec["steps"], cc.run_history(spec))):
+            mark = " <== the step in question" if i == rp.get("step") else ""
+            head = "step %d [report %d] %s" % (i + 1, st.get("r", 0) % len(spec["reports"]), st["op"])
+            if "pattern" in st and st["op"] in cc.QUERY_OPS:
+                head += "(%r)" % st["pattern"]
+            if st.get("target") == "sub":
+                head += " about the submission"
+            elif "code" in st:
+                head += " %r" % st["code"]
+            if r is None:
+                print(head + mark)
+                continue
+            print(head + " -> asked program %r%s" % (r.code, mark))
+            if r.exc is not None:
+                print("    raises", r.exc)
+                continue
+            print("    %d matches, match_lineno %s%s" % (len(r.raw), [m.match_lineno for m in r.raw],
+                                                      "; " + r.foreign if r.foreign else ""))
+            if r.raw and d.available:
+                print("    checkMatch against the asked program:", embed_verdicts(d, r))
+        return 0
     if not rp or "pattern" not in rp:
         print(json.dumps(payload, indent=1)[:3000])
         return 0
